@@ -63,6 +63,16 @@ impl Packet {
 
         // Test with a stream with exactly the size to check border panics
         let packet = stream.split_to(fixed_header.frame_length());
+
+        // The frame is complete from here on: running out of bytes inside it means that the
+        // packet is malformed, not that more bytes have to be awaited
+        Self::read_frame(fixed_header, packet).map_err(|e| match e {
+            Error::InsufficientBytes(_) => Error::MalformedPacket,
+            e => e,
+        })
+    }
+
+    fn read_frame(fixed_header: FixedHeader, packet: BytesMut) -> Result<Packet, Error> {
         let packet_type = fixed_header.packet_type()?;
 
         if fixed_header.remaining_len == 0 {
